@@ -197,9 +197,10 @@ def run_unit(unit: tuple, acc: Any) -> None:
 
 
 def _offset_to_pos(text: str, off: int) -> tuple[int, int]:
+    """(line, column in UTF-8 bytes) of a character offset: AST columns count bytes."""
     line = text.count("\n", 0, off) + 1
-    col = off - (text.rfind("\n", 0, off) + 1)
-    return line, col
+    bol = text.rfind("\n", 0, off) + 1
+    return line, len(text[bol:off].encode("utf-8", "surrogatepass"))
 
 
 def _find(tree: Any, span: tuple[int, int, int, int], want: type) -> list[tuple[str, int | None]] | None:
@@ -253,8 +254,6 @@ def check_case(case: dict, acc: Any) -> None:
     # span of the construct's node: locate the translation's root node in the reference tree, follow the same path
     a, b = case["pyspan"]
     (l0, c0), (l1, c1) = _offset_to_pos(py, a), _offset_to_pos(py, b)
-    if not py.isascii():
-        return
     try:
         want = type(ast.parse(py[a:b], mode="eval").body)
     except SyntaxError:
